@@ -34,8 +34,13 @@ func (d damage) String() string {
 }
 
 var (
-	bucketKinds  = []string{"ok", "absent", "other-name"}
-	schemaKinds  = []string{"ok", "absent", "empty", "trunc-1", "trunc-2", "trunc-5", "trunc-10", "trunc-half", "trunc-last3", "trunc-last1", "trunc-20", "bitflip", "other-gob-type", "garbage"}
+	bucketKinds = []string{"ok", "absent", "other-name"}
+	schemaKinds = []string{"ok", "absent", "empty", "trunc-1", "trunc-2", "trunc-5", "trunc-10", "trunc-half", "trunc-last3", "trunc-last1", "trunc-20", "bitflip", "other-gob-type", "garbage",
+		// (round 7) a length or count field that overflows: the encodings of 2^63, 2^64-1, 2^32-1 and 2^31-1 as base-128
+		// varints written over the schema value at an offset (from the start, or from the end when negative). Which
+		// offsets hold lengths depends on the encoding in use; a decoder must survive them wherever they land.
+		"lenovf:0", "lenovf:1", "lenovf:2", "lenovf:3", "lenovf:4", "lenovf:5", "lenovf:6", "lenovf:7", "lenovf:8", "lenovf:9", "lenovf:10", "lenovf:12", "lenovf:14", "lenovf:16", "lenovf:20",
+		"lenovf:24", "lenovf:32", "lenovf:40", "lenovf:48", "lenovf:64", "lenovf:-16", "lenovf:-11", "lenovf:-6", "lenovf:-3"}
 	counterKinds = []string{"ok", "absent", "len0", "len1", "len2", "len3", "len5", "len8"}
 	bitmapKinds  = []string{"ok", "one-truncated", "all-truncated", "garbage", "empty", "short-key", "long-key", "foreign-key", "empty-serialised", "header-byte-zeroed"}
 )
@@ -59,7 +64,7 @@ func (d damage) mustFail(preload bool) bool {
 // bit may leave a decodable gob; a truncated bitmap may still parse): error or
 // success are both fine, a panic or a leaked lock is not.
 func (d damage) mayFail(preload bool) bool {
-	if d.schema == "bitflip" || d.schema == "other-gob-type" || d.schema == "garbage" {
+	if d.schema == "bitflip" || d.schema == "other-gob-type" || d.schema == "garbage" || strings.HasPrefix(d.schema, "lenovf:") {
 		return true
 	}
 	if d.bitmaps == "foreign-key" {
@@ -97,7 +102,30 @@ func applyDamage(path string, d damage, rng *rand.Rand) error {
 			_ = b.Put([]byte("S"), buf.Bytes())
 		case "garbage":
 			_ = b.Put([]byte("S"), []byte(gen.RandBytes(rng, 40)))
-		default: // truncations
+		default:
+			if strings.HasPrefix(d.schema, "lenovf:") {
+				s := append([]byte{}, b.Get([]byte("S"))...)
+				var off int
+				fmt.Sscanf(d.schema, "lenovf:%d", &off)
+				if off < 0 {
+					off += len(s)
+				}
+				if off < 0 {
+					off = 0
+				}
+				pat := [][]byte{
+					{0x80, 0x80, 0x80, 0x80, 0x80, 0x80, 0x80, 0x80, 0x80, 0x01}, // 2^63
+					{0xff, 0xff, 0xff, 0xff, 0xff, 0xff, 0xff, 0xff, 0xff, 0x01}, // 2^64-1
+					{0xff, 0xff, 0xff, 0xff, 0x0f},                               // 2^32-1
+					{0xff, 0xff, 0xff, 0xff, 0x07},                               // 2^31-1
+				}[rng.Intn(4)]
+				if off < len(s) {
+					copy(s[off:], pat)
+				}
+				_ = b.Put([]byte("S"), s)
+				break
+			}
+			// truncations
 			s := append([]byte{}, b.Get([]byte("S"))...)
 			n := map[string]int{"trunc-1": 1, "trunc-2": 2, "trunc-5": 5, "trunc-10": 10, "trunc-20": 20, "trunc-half": len(s) / 2, "trunc-last3": len(s) - 3, "trunc-last1": len(s) - 1}[d.schema]
 			if n > len(s)-1 {
